@@ -463,3 +463,35 @@ Definition run_dl (cl : option caller) (inp : input) (order : list nat) : list n
   if guard_ok (i_kind inp) (i_len inp)
   then (views inp order, outcomes_dl cl inp order)
   else (map (fun _ => idle_view) (i_nodes inp), [(false, 0)]).
+
+(* ------------------------------------------------------------------------------------------- *)
+(* The client monitor.  In every submit<Kind> goroutine s.clientMonitor.ClientOperation(...) is called
+   after the node's answer (and, for the three classified kinds, after handle...Error with its version
+   request) and before `submissionCompleted.Store(true); w.Signal()`, in the node's own goroutine,
+   before the deferred sem.Release.  A monitor whose ClientOperation takes m ms (a contended metrics
+   backend) therefore delays the node's store, its signal and the release of its token by m, and
+   nothing else: the submission behaves as if every answer of every node came m ms later.  (Only
+   without a caller's deadline: ClientOperation takes no context.) *)
+Definition slow_beh (m : N) (b : beh) : beh :=
+  match b with BReply d r => BReply (d + m) r | BHang => BHang end.
+
+Definition slow_node (m : N) (nd : node) : node :=
+  {| n_client := n_client nd; n_default := slow_beh m (n_default nd);
+     n_over := map (fun ob => (fst ob, slow_beh m (snd ob))) (n_over nd);
+     n_ver1 := n_ver1 nd; n_ver2 := n_ver2 nd |}.
+
+Definition slow_by (m : N) (inp : input) : input :=
+  {| i_kind := i_kind inp; i_len := i_len inp; i_conc := i_conc inp; i_timeout := i_timeout inp;
+     i_nodes := map (slow_node m) (i_nodes inp) |}.
+
+Definition run_mon (m : N) (inp : input) (order : list nat) : list node_view * list (bool * N) :=
+  run_dl None (slow_by m inp) order.
+
+(* services/submitter/immediate with a scripted node (answers per request, by the items the request
+   carries): the one request carries the whole payload, so the node answers it as call_beh says;
+   a node that never answers is not modelled (no timeout of its own; never generated). *)
+Definition immediate_node (nd : node) (len : N) : list (N * N) * bool :=
+  match call_beh nd (0, len) with
+  | BReply _ r => immediate len r
+  | BHang => immediate len (RError {| e_shape := ShPlain; e_entries := [] |})
+  end.
